@@ -415,6 +415,7 @@ class NpEval:
         self.excluded = None
         self.warn = None
         self.eps = 0.0   # eps of the least precise floating dtype met anywhere
+        self.eps_computed = 0.0   # ... among the results of operations only (NumPy computes each operation in its result dtype)
         self.nonfinite = False  # an intermediate of the NumPy evaluation is inf/NaN
         self.recv_resolver = None   # (src_rank, tag) -> ndarray, for multi-rank programs
 
@@ -470,6 +471,8 @@ class NpEval:
             r = self._eval(t)
         if not isinstance(r, dict):
             r = self.note(r)
+            if t[0] not in ("ph", "dw", "dwv", "dwalias", "sp") and np.asarray(r).dtype.kind in "fc":
+                self.eps_computed = max(self.eps_computed, float(np.finfo(np.asarray(r).dtype).eps))
         self.memo[k] = r
         return r
 
